@@ -233,6 +233,37 @@ def croo_all(ctx):
     ctx.sample(sub, {"words": "all binary words", "orders": "all permutations for length <= 6; identity, reversal, rotations, interleave for longer"})
 
 
+def croo_sequences(ctx):
+    """Operation sequences on ONE object: croo(), relabel the time axis in place, croo() again ... - every result
+    must be the one for the labels the object carries at that moment (no remembered ordering)."""
+    import pandas as pd
+    import xarray as xr
+    sub = "croo_sequences"
+    n = 5
+    w = sse.word_indices(2, n).astype("uint8")
+    N = w.shape[0]
+    times = pd.date_range("2000-01-01", periods=n, freq="10D")
+    perms = list(itertools.permutations(range(n)))
+    da = xr.DataArray(w.reshape(N, 1, n).copy(), dims=("y", "x", "time"), coords={"time": times})
+    steps = 0
+    for k, perm in enumerate(perms + perms[::-1][:20]):
+        # stored position i now carries the label times[perm[i]]  (chronological rank perm[i])
+        da["time"] = times[list(perm)]
+        got = np.asarray(da.hdc.algo.croo().values).reshape(-1).astype(np.int64)
+        chron = np.empty_like(w)
+        chron[:, list(perm)] = w
+        cr, _ = ref_runs(chron)
+        steps += 1
+        if not np.array_equal(got, cr):
+            j = int(np.nonzero(got != cr)[0][0])
+            ctx.violation(sub, {"step": k, "labels_rank": list(perm), "word": w[j].tolist()}, {"kind": "croo_seq"},
+                          f"after {k} in-place relabelings of the same DataArray (current chronological ranks of the stored steps {list(perm)}): "
+                          f"croo of stored series {w[j].tolist()} -> {int(got[j])}, expected {int(cr[j])}")
+            break
+    ctx.count(sub, evaluations=steps * N, states=steps, transitions=steps, traces_validated_against_impl=steps, nontrivial=steps)
+    ctx.sample(sub, {"object": "one DataArray holding all 32 binary words of length 5", "sequence": "time labels reassigned in place through all 120 orders and back"})
+
+
 def run(ctx):
     _ops().lroo(np.zeros((1, 2), "uint8"))
     maxn = 18 if ctx.thorough() else 16
@@ -242,6 +273,7 @@ def run(ctx):
     nonbinary(ctx)
     accessor_lroo(ctx)
     croo_all(ctx)
+    croo_sequences(ctx)
 
 
 def replay(sub, case, p):
@@ -249,6 +281,8 @@ def replay(sub, case, p):
     if k == "lroo":
         w = np.asarray([case["word"]], dtype="uint8") if case.get("word") is not None else _unrle(case["rle"])
         check_lroo(w, p, sub)
+    elif k == "croo_seq":
+        croo_sequences(p)
     elif k == "croo":
         check_croo(np.asarray([case["word"]], dtype="uint8"), tuple(case["order"]), p, sub, case.get("backend", "numpy"))
     else:
